@@ -163,6 +163,67 @@ ds!(c25_t_decode_k3_split3, 3, 3, 5);
 #[cfg(feature = "thorough")]
 ds!(c25_t_decode_k3_split4, 3, 4, 5);
 
+
+/// A frame whose HEADER varint needs two bytes (stream id 16..), given in two chunks split at
+/// S — including S = 1, inside the header varint — for each of the 8 flags (concrete header,
+/// K symbolic payload bytes).
+fn decode_split_2byte_header<const K: usize, const S: usize, const NUM: u64>() {
+    let payload: [u8; K] = kani::any();
+    let n = 3 + K;
+    assert!(S < n && NUM >= 16 && NUM < 2048);
+    let mut flag = 0u8;
+    while flag < 8 {
+        let header = (NUM << 3) | flag as u64;
+        let mut wire = [0u8; 8];
+        wire[0] = (header & 0x7f) as u8 | 0x80;
+        wire[1] = (header >> 7) as u8;
+        wire[2] = K as u8;
+        let mut i = 0;
+        while i < K {
+            wire[3 + i] = payload[i];
+            i += 1;
+        }
+        let mut c = CodecHook::default();
+        let mut buf = BytesMut::with_capacity(64);
+        put(&mut buf, &wire[..S]);
+        let r1 = c.decode(&mut buf);
+        assert!(matches!(r1, Ok(None)), "a proper prefix of a frame yields nothing");
+        put(&mut buf, &wire[S..n]);
+        let r = c.decode(&mut buf);
+        match spec(flag) {
+            None => assert!(r.is_err(), "unknown frame type 7 is rejected"),
+            Some((kind, remote_dialer)) => match &r {
+                Ok(Some(f)) => {
+                    assert!(f.kind == kind && f.num == NUM && f.dialer == remote_dialer, "kind, stream id and role per the flag table");
+                    if kind == Kind::Data {
+                        assert!(same_bytes(&f.data, &payload), "payload delivered unchanged");
+                    }
+                    assert!(buf.is_empty() && c.decoder_state() == 0, "frame consumed, decoder back at the start");
+                }
+                _ => assert!(false, "a complete valid frame decodes, wherever the stream was split"),
+            },
+        }
+        std::mem::forget((r1, r, buf));
+        flag += 1;
+    }
+    kani::cover!(true, "witness: all eight flags done");
+}
+macro_rules! ds2 {
+    ($name:ident, $k:expr, $s:expr, $num:expr) => {
+        #[kani::proof]
+        #[kani::unwind(12)]
+        #[kani::stub(alloc::fmt::format, crate::stubs::empty_format)]
+        fn $name() {
+            decode_split_2byte_header::<$k, $s, $num>()
+        }
+    };
+}
+ds2!(c25_q_decode_2byte_header_split_inside_header, 1, 1, 16);
+#[cfg(feature = "thorough")]
+ds2!(c25_t_decode_2byte_header_split_after_header, 1, 2, 300);
+#[cfg(feature = "thorough")]
+ds2!(c25_t_decode_2byte_header_split_after_len, 1, 3, 2047);
+
 /// Encoder side against the wire specification: header varint = id << 3 | flag (flag from
 /// the LOCAL role: initiator flags for the dialer), length varint, payload.  Together
 /// with the decode harnesses above this gives the round trip (encode -> spec bytes ->
@@ -255,6 +316,20 @@ fn c25_q_length_just_over_max() {
 fn c25_q_length_exactly_max() {
     length_case(&[0x80, 0x80, 0x40], 1024 * 1024);
 }
+/// 2^32: a length that only fits 64 bits (a truncation to 32 bits would turn it into 0).
+#[kani::proof]
+#[kani::unwind(12)]
+#[kani::stub(alloc::fmt::format, crate::stubs::empty_format)]
+fn c25_q_length_2_pow_32() {
+    length_case(&[0x80, 0x80, 0x80, 0x80, 0x10], 1 << 32);
+}
+#[cfg(feature = "thorough")]
+#[kani::proof]
+#[kani::unwind(12)]
+#[kani::stub(alloc::fmt::format, crate::stubs::empty_format)]
+fn c25_t_length_2_pow_40_plus_5() {
+    length_case(&[0x85, 0x80, 0x80, 0x80, 0x80, 0x20], (1 << 40) + 5);
+}
 #[cfg(feature = "thorough")]
 #[kani::proof]
 #[kani::unwind(12)]
@@ -292,7 +367,7 @@ fn hostile<const N: usize>() {
         Err(_) => assert!(h & 7 == 7, "errors only for the unknown type (lengths here are small)"),
     }
     kani::cover!(r.is_err(), "witness: rejected");
-    kani::cover!(matches!(&r, Ok(None)), "witness: incomplete");
+    kani::cover!(N >= 3 || matches!(&r, Ok(None)), "witness: incomplete (only possible when fewer than 3 bytes follow)");
     std::mem::forget((r, buf));
 }
 #[kani::proof]
